@@ -111,3 +111,10 @@ m("C20", ["R53m"], FM, "let sign_char = if self.lo().is_sign_positive() {", "let
 m("C20", ["R54"], SE, 'state.serialize_field("lo", &self.lo)?;', 'state.serialize_field("lo", &self.hi)?;', "writer emits hi twice")
 m("C20", ["R54"], SE, "                            lo = Some(map.next_value()?);", "                            hi = Some(map.next_value()?);", "Lo key stored in the hi slot")
 m("C20", ["R54"], SE, '"lo" => Ok(Field::Lo),', '"low" => Ok(Field::Lo),', "reader field name differs from writer")
+
+# ---- rules relaxed while hardening against refactorings must still catch the defect they used to catch
+m("C20", ["R53m", "R53x"], FM, 'None => write!(f, "{:e} {} {:e}", self.hi, sign_char, libm::fabs(self.lo)),', 'None => write!(f, "{:e} {} {}", self.hi, sign_char, libm::fabs(self.lo)),', "Display placeholder for the low word inside LowerExp (the AST rule leaves the trait to the MIR rule)")
+m("C07", ["RD"], B, "            match libm::fabs(b).partial_cmp(&limit) {", "            debug_assert!(libm::fabs(b) <= libm::fabs(a));\n            match libm::fabs(b).partial_cmp(&limit) {", "a debug assertion that valid callers can violate (form rules assume it, RD must not)")
+m("C04", ["R8", "RB"], A, "    f64::mul_add(x, y, z)\n", "    f64::mul_add(y, z, x)\n", "fma wrapper with rotated operands in the std build (R5 no longer fixes the arrangement; conformance must)")
+m("C02", ["R4"], A, "    f64::mul_add(x, y, z)\n", "    f64::mul_add(z, y, x)\n", "fma wrapper with swapped operands")
+m("C03", ["R7"], "src/iter.rs", "iter.fold(Self::zero(), <Self>::add)", "{ let mut t = Self::zero(); let mut n = 0usize; iter.for_each(|x| { if n == 0 { t = t + x; } n += 1; }); t }", "sum that only adds the first item, written with for_each (captures assigned inside an opaque call)")
